@@ -14,5 +14,20 @@ PROP = dict(
     exhaustive=dict(quick=False, thorough=False),
     technique="TLA+ spec SetupGrammar.tla (explicit model of the token sequences that can follow each registered directive) enumerated by TLC; "
               "every case replayed through -validate, the directive phase of Start and a sampled real Start/Stop in watchdogged worker processes",
-    level_text="TBD", level_note="TBD", assumptions=[],
+    level_text="SetupGrammar.tla is the explicit model of the input space of the statement: for each of the 31 directive names the http server "
+               "type lists (29 registered, 2 listed without a plugin) a state machine appends argument tokens of 14 lexical classes, opens a block, "
+               "starts a line with each keyword of the directive's vocabulary (115 keywords, cross-checked against the setup sources on every run) "
+               "and appends line arguments; TLC enumerates it exhaustively (quick: <=2 arguments, or <=1 argument + one block line with <=1 argument, "
+               "or no argument + one block line with <=2 arguments = 94 574 cases; thorough: 3 / 1+2 / 0+3 = 1 321 142 cases) and by simulation for "
+               "several lines and nested blocks (6 000 / 100 000). There is no functional oracle; the statement's relational clauses are judged on "
+               "the real code's behaviour for every case: no phase panics, every phase returns within the deadline (worker process, killed "
+               "otherwise), rejections carry a message, -validate accepts <=> the directive phase of Start accepts, and a configuration -validate "
+               "refused does not start. A quarter of the cases additionally go through a real casket.Start/Stop on a loopback port.",
+    level_note="Trusted: TLC; the 14 lexical classes and their 3-7 spellings each (seeded) as representatives of all argument values; the per-directive "
+               "value dictionary of the harness. Not covered: multi-site interactions, arguments longer than 4 tokens per line outside simulation, "
+               "managed TLS (sites are 127.0.0.1 so no certificate is ever requested; tls cases are started only with off / self_signed).",
+    assumptions=["a setup function distinguishes argument values only through the lexical classes and keywords of SetupGrammar.tla (plus the harness' value dictionary)",
+                 "'start accepts' = ValidateAndExecuteDirectives(justValidate=false) on an instance built like Start's (hook VerifC11Load); failures of later start "
+                 "phases (listeners, start-up callbacks opening log files or running commands) are environment, recorded in the evidence, not disagreements",
+                 "a validate+load+start of a one-site configuration that takes longer than 15 s (VERIF_C11_DEADLINE) does not return"],
 )
